@@ -24,7 +24,9 @@ pub const ESCAPED: &[char] = &['@', '#', '~', '{', '}', '\\', '[', '-', '>', '='
 pub const TEXT_NUMS: &[&str] = &["2", "350", "10", "1", "45", "\u{2212}5", "±2", "\u{2212}18"];
 pub const UNITS: &[&str] = &["g", "kg", "ml", "l", "cup", "cups", "tsp", "tbsp", "oz", "lb", "bag", "cloves", "big pinch", "fl oz", "L", "grams", "EL", "Pkg", "tsp.", "fl. oz.", "fl\u{a0}oz", "fl\u{2009}oz"];
 pub const TIME_UNITS: &[&str] = &["min", "minutes", "h", "hours", "s", "sec", "d", "day", "secs", "mins", "minute", "hour", "seconds", "days"];
-pub const TEXT_VALUES: &[&str] = &["a pinch", "some", "to taste", "handful", "a dash", "half a", "plenty", "one or two", "1/0-x", "1/2-some", "2-x"];
+pub const TEXT_VALUES: &[&str] = &["a pinch", "some", "to taste", "handful", "a dash", "half a", "plenty", "one or two", "1/0-x", "1/2-some", "2-x",
+    // text for the parser, numbers for a float parser
+    "01", "+2", "1e3", "inf", "nan", "2E1", "007", "1_000"];
 pub const INLINE_UNITS: &[&str] = &["ºC", "°F", "kg", "ml", "C", "minutes"];
 pub const INLINE_NUMS: &[&str] = &["180", "350", "2", "1.5", "0.5"];
 pub const META_KEYS: &[&str] = &[
